@@ -128,6 +128,32 @@ EXPECTED = {
     "Raw": ("@", "( ! ( TagStart | ExpressionStart ) ~ ANY ) +"),
     "TagInner": ("!", "Identifier ~ TagToken *"),
     "ExpressionInner": ("!", "FilterChain"),
+    # the inner rules transcribed by Model/LexInner.lean, Model/Literal.lean and Model/MiniParse.lean
+    'NON_WHITESPACE_CONTROL_HYPHEN': ('_', '! "-}}" ~ ! "-%}" ~ "-"'),
+    'LiquidFile': ('$', 'SOI ~ Element * ~ EOI'),
+    'Identifier': ('@', '( ASCII_ALPHA | "_" | NON_WHITESPACE_CONTROL_HYPHEN ) ~ ( ASCII_ALPHANUMERIC | "_" | NON_WHITESPACE_CONTROL_HYPHEN ) *'),
+    'Variable': ('$', 'Identifier ~ ( ( "." ~ Identifier ) | ( "[" ~ WHITESPACE * ~ Value ~ WHITESPACE * ~ "]" ) ) *'),
+    'Value': ('', 'Literal | Variable'),
+    'Filter': ('', 'Identifier ~ ( ":" ~ FilterArgument ~ ( "," ~ FilterArgument ) * ) ?'),
+    'FilterChain': ('', 'Value ~ ( "|" ~ Filter ) *'),
+    'PositionalFilterArgument': ('', 'Value'),
+    'KeywordFilterArgument': ('', 'Identifier ~ ":" ~ Value'),
+    'FilterArgument': ('_', 'KeywordFilterArgument | PositionalFilterArgument'),
+    'NilLiteral': ('@', '"nil" | "null"'),
+    'EmptyLiteral': ('@', '"empty"'),
+    'BlankLiteral': ('@', '"blank"'),
+    'StringLiteral': ('@', '( "\'" ~ ( ! "\'" ~ ANY ) * ~ "\'" ) | ( "\\"" ~ ( ! "\\"" ~ ANY ) * ~ "\\"" )'),
+    'IntegerLiteral': ('@', '( "+" | "-" ) ? ~ ASCII_DIGIT +'),
+    'FloatLiteral': ('@', '( "+" | "-" ) ? ~ ASCII_DIGIT + ~ "." ~ ASCII_DIGIT +'),
+    'BooleanLiteral': ('@', '"true" | "false"'),
+    'Literal': ('', 'NilLiteral | EmptyLiteral | BlankLiteral | StringLiteral | FloatLiteral | IntegerLiteral | BooleanLiteral'),
+    'Range': ('', '"(" ~ Value ~ ".." ~ Value ~ ")"'),
+    'TagToken': ('_', 'Range | FilterChain | DoubleCharSymbol | SingleCharSymbol'),
+    'SingleCharSymbol': ('_', 'GreaterThan | LesserThan | Assign | Comma | Colon'),
+    'DoubleCharSymbol': ('_', 'Equals | NotEquals | LesserThanGreaterThan | GreaterThanEquals | LesserThanEquals'),
+    'GreaterThan': ('', '">"'), 'LesserThan': ('', '"<"'), 'Assign': ('', '"="'), 'Comma': ('', '","'), 'Colon': ('', '":"'),
+    'Equals': ('', '"=="'), 'NotEquals': ('', '"!="'), 'LesserThanGreaterThan': ('', '"<>"'),
+    'GreaterThanEquals': ('', '">="'), 'LesserThanEquals': ('', '"<="'),
 }
 
 
